@@ -870,7 +870,7 @@ def lefthanded_3hinge(sysm):
   return False
 
 
-SEP_MARGIN = 1e-3
+SEP_MARGIN = 2e-5     # "minimum contact distance > 0": 20 micrometres above round-off (was 1 mm, which hid the band just above contact)
 
 
 def check_separated_case(xml, q, qd, act, name, hist):
